@@ -409,7 +409,9 @@ def energy_series(case, res, dt):
     cp0 = ws * cps + (1 - ws) * cpw
     dTmax = np.maximum.accumulate(np.abs(T - T[0]).reshape(n, -1).max(axis=1))
     wmax = np.maximum.accumulate(flat_ice)
-    grid = (1.0 / 30) * rho * Vtot * (cp0 * dTmax + Dh * wmax)
+    # (with a cooled side wall the outermost radial layer, 1/Nr of the radius, adds its own)
+    layers = 1.0 / 30 + (1.0 / 15 if (dim == "spatial_2D" and cfg == "jacket") else 0.0)
+    grid = layers * rho * Vtot * (cp0 * dTmax + Dh * wmax)
     return {"dH": dH, "Q": Q, "Qabs": Qabs, "inuc": inuc, "grid": grid}
 
 
@@ -440,3 +442,262 @@ def code_dt(const):
     if const["dimensionality"] == "spatial_1D":
         return 0.4 * dz ** 2 / alpha_max
     return 0.1
+
+
+# ---------------------------------------------------------------------------
+# one shared observation per real run (C02, C07, C15 use the same runs; cached on disk
+# per source state under .cache/s2d so that the three checks do not repeat them)
+# ---------------------------------------------------------------------------
+import gzip
+import hashlib
+import json
+
+
+def _cache_path(case):
+    h = hashlib.sha256()
+    h.update(core.repo_fingerprint().encode())
+    h.update(json.dumps(case, sort_keys=True, default=str).encode())
+    h.update(b"obs-v4")
+    d = core.VERIF / ".cache" / "s2d"
+    d.mkdir(parents=True, exist_ok=True)
+    return d / (h.hexdigest()[:24] + ".json.gz")
+
+
+def source_has_cn_fix():
+    import inspect
+    from ethz_snow.snowing import Snowing
+
+    return "T_k.min()" in inspect.getsource(Snowing._run_2D)
+
+
+def _bounds_summary(case, res, inuc):
+    """every bound of C07 on every reported node/time"""
+    const = res["const"]
+    T = res["temp"]  # degC
+    w = res["ice"]
+    shelf = res["shelf"]
+    n = T.shape[0]
+    Tf = T.reshape(n, -1)
+    wf = w.reshape(n, -1)
+    T_eq_l = const["T_eq"] - const["depression"]  # degC
+    ws = const["solid_fraction"]
+    out = {"finite": bool(np.isfinite(Tf).all() and np.isfinite(wf).all())}
+    upper = max(case["start"], T_eq_l)
+    ex = Tf.max(axis=1) - upper
+    k = int(np.argmax(ex))
+    out["upper_excess"] = float(ex[k])
+    out["upper_row"] = k
+    runmin = np.minimum.accumulate(shelf)
+    runmin = np.minimum(runmin, case["start"])
+    de = runmin - Tf.min(axis=1)
+    k = int(np.argmax(de))
+    out["lower_deficit"] = float(de[k])
+    out["lower_row"] = k
+    out["ice_min"] = float(wf.min())
+    out["ice_max_excess"] = float((wf.max(axis=1) - (1 - ws)).max())
+    out["ice_before_nuc"] = float(wf[:inuc].max()) if inuc > 0 else 0.0
+    warm = (Tf >= T_eq_l + 1e-9) & (wf > 0)
+    out["ice_at_warm_nodes"] = int(warm.sum())
+    cold_noice = (Tf < T_eq_l - 1e-9) & (wf == 0)
+    cold_noice[:inuc] = False
+    out["cold_nodes_without_ice_after_nuc"] = int(cold_noice.sum())
+    # liquidus relation wherever ice is present:  w (mw+ms) = mw - ms (kf/Ms)/(Tm - T)
+    mw, ms = const["mass_water"], const["mass_solute"]
+    kap = const["k_f"] / const["M_s"]
+    m = wf > 0
+    if m.any():
+        rhs = (mw - ms * kap / (const["T_eq"] - Tf[m])) / (mw + ms)
+        out["liquidus_residual"] = float(np.max(np.abs(wf[m] - rhs)))
+    else:
+        out["liquidus_residual"] = 0.0
+    return out
+
+
+def _radial_summary(res, inuc):
+    T = res["temp"]
+    if T.ndim != 3:
+        return None
+    spread = T.max(axis=2) - T.min(axis=2)  # (rows, Nz)
+    per_row = spread.max(axis=1)
+    k = int(np.argmax(per_row))
+    cool = per_row[:max(inuc, 1)]
+    kc = int(np.argmax(cool))
+    first = int(np.argmax(per_row > 0)) if (per_row > 0).any() else -1
+    return {"max": float(per_row[k]), "row": k, "max_cooling": float(cool[kc]), "row_cooling": kc,
+            "first_row_with_spread": first,
+            "spread_at_first": float(per_row[first]) if first >= 0 else 0.0}
+
+
+def _evap_inferred(case, res, dt, inuc):
+    """VISF, 2D, cooling stage: the evaporative flux the code actually applied at the top
+    centre node, inferred from two consecutive recorded fields (every step recorded), vs the
+    flux of the LIQUID vapour-pressure law at the old top temperature (what the 1D model and
+    the published model use).  The top-centre stencil only reads old values also in the
+    aliased code."""
+    const = res["const"]
+    if const["configuration"] != "VISF" or res["temp"].ndim != 3:
+        return None
+    T = res["temp"] + 273.15
+    time_s = res["time"] * 3600.0
+    Nz, Nr = 30, 15
+    dz = const["height"] / Nz
+    dr = (const["diameter"] / 2) / Nr
+    k0 = const["solid_fraction"] * const["lambda_s"] + (1 - const["solid_fraction"]) * const["lambda_w"]
+    a = k0 / (const["cp_solution"] * const["rho_l"]) * dt
+    worst = 0.0
+    wk = -1
+    nwin = 0
+    vals = None
+    for k in range(1, min(inuc, T.shape[0])):
+        if abs((time_s[k] - time_s[k - 1]) - dt) > 1e-6 * dt:
+            continue
+        if not _in_window(const, time_s[k]):
+            continue
+        T0, T1 = T[k - 1], T[k]
+        c = T0[Nz - 1, 0]
+        rad = 2 * ((T0[Nz - 1, 1] - 2 * c) + c) / dr ** 2
+        # T1 = c + a*(rad + (Ttop - 2c + below)/dz^2)
+        Ttop = ((T1[Nz - 1, 0] - c) / a - rad) * dz ** 2 + 2 * c - T0[Nz - 2, 0]
+        q_applied = (Ttop - c) * k0 / dz
+        q_liquid = float(_evap_flux(const, c, False))
+        q_ice = float(_evap_flux(const, c, True))
+        nwin += 1
+        rel = abs(q_applied - q_liquid) / max(abs(q_liquid), 1e-30)
+        if rel > worst:
+            worst, wk, vals = rel, k, (float(q_applied), q_liquid, q_ice, float(c))
+    return {"n": nwin, "worst_rel": float(worst), "row": wk, "vals": vals}
+
+
+def observe(case, use_cache=True):
+    """the shared observation of one real run"""
+    p = _cache_path(case)
+    if use_cache and p.exists():
+        try:
+            with gzip.open(p, "rt") as f:
+                return json.load(f)
+        except Exception:
+            pass
+    res = run_real_full(case)
+    if res["raise"]:
+        obs = {"raise": res["raise"], "stage": res.get("stage")}
+    else:
+        const = res["const"]
+        dim = const["dimensionality"]
+        dt = code_dt(const)
+        n = len(res["time"])
+        obs = {"raise": None, "stats": [None if x is None else float(x) for x in res["stats"]], "n": n,
+               "time": res["time"].tolist(), "shelf": res["shelf"].tolist(), "dt": dt, "dim": dim}
+        if dim != "homogeneous":
+            es = energy_series(case, res, dt)
+            inuc = es["inuc"]
+            ratio, k = energy_verdict(es)
+            time_s = res["time"] * 3600.0
+            strided = bool(n > 2 and (time_s[1] - time_s[0]) > 1.5 * dt)
+            obs["energy"] = {"ratio": ratio, "row": k, "dH": float(es["dH"][k]), "Q": float(es["Q"][k]),
+                             "Qabs": float(es["Qabs"][k]), "grid": float(es["grid"][k]),
+                             "final_dH_over_Q": float(es["dH"][-1] / es["Q"][-1]) if es["Q"][-1] != 0 else None,
+                             "jump_dH": float(es["dH"][inuc] - es["dH"][inuc - 1]) if 0 < inuc < n else 0.0,
+                             "jump_scale": float(es["Qabs"][-1]),
+                             "strided": strided}
+            obs["inuc"] = inuc
+            obs["bounds"] = _bounds_summary(case, res, inuc)
+            obs["radial"] = _radial_summary(res, inuc)
+            obs["evap"] = _evap_inferred(case, res, dt, inuc)
+            stride = int(case.get("outStride", 1))
+            rows = keep_rows(n, min(inuc, n - 1), stride)
+            obs["iSaveEnd"] = min(inuc, n - 1)
+            obs["rows"] = rows
+            obs["temp"] = [res["temp"][k].reshape(-1).tolist() for k in rows]
+            obs["ice"] = [res["ice"][k].reshape(-1).tolist() for k in rows]
+            obs["T_eq_l"] = const["T_eq"] - const["depression"]
+        else:
+            obs["temp"] = res["temp"].tolist()
+            obs["ice"] = res["ice"].tolist()
+    if use_cache:
+        try:
+            tmp = p.with_suffix(".tmp%d" % os.getpid())
+            with gzip.open(tmp, "wt") as f:
+                json.dump(obs, f)
+            os.replace(tmp, p)
+        except Exception:
+            pass
+    return obs
+
+
+# ---------------------------------------------------------------------------
+# the standard set of runs (shared by C02 and C07, partly by C15)
+# ---------------------------------------------------------------------------
+def _base(cfg, H, D, K, t_tot, dim="spatial_2D", **kw):
+    c = dict(dim=dim, config=cfg, height=H, diameter=D, K_shelf=K, start=5, stop=-80, rate=1, holds=None,
+             t_tot=t_tot, cn=None, seed=0, outStride=40)
+    if dim == "spatial_1D":
+        c["length"] = c["width"] = float(math.sqrt(math.pi) * D / 2)  # equal cross-section
+    if cfg == "VISF":
+        c["visf"] = dict(t_vac_start=20 / 3600, t_vac_duration=100 / 3600)
+    if cfg == "jacket":
+        c["jacket"] = dict(air_gap=1e-4, lambda_air=0.025)
+    c.update(kw)
+    return c
+
+
+def _est_steps(c):
+    """rough number of time steps of a case (to keep every step recorded: < 10 000)"""
+    const = dict(height=c["height"], diameter=c["diameter"], lambda_i=2.25, cp_i=2108.0, rho_l=1000.0,
+                 dimensionality=c["dim"])
+    return c["t_tot"] / code_dt(const)
+
+
+def standard_cases(tier, seed=0):
+    """the 2D / 1D runs on which C02 and C07 evaluate their clauses (geometries OFF the
+    default aspect ratio, three configurations, every step recorded)"""
+    import random
+
+    rng = random.Random(f"S2D:{seed}")
+    cs = [
+        _base("shelf", 0.01, 0.04, 1000, 200),
+        _base("VISF", 0.01, 0.04, 1000, 200),
+        _base("jacket", 0.01, 0.04, 1000, 200),
+        _base("jacket", 0.015, 0.03, 1000, 350, jacket=dict(air_gap=1e-5, lambda_air=0.025)),
+        _base("jacket", 0.02, 0.02, 1000, 500),
+        _base("shelf", 0.02, 0.06, 2000, 600),
+        _base("shelf", 0.01, 0.04, 1000, 200, dim="spatial_1D"),
+        _base("VISF", 0.01, 0.04, 1000, 200, dim="spatial_1D"),
+    ]
+    n_rand = 3 if tier == "quick" else 14
+    if tier != "quick":
+        cs += [
+            _base("jacket", 0.02, 0.012, 1000, 300, jacket=dict(air_gap=1e-5, lambda_air=0.025)),
+            _base("VISF", 0.03, 0.03, 2000, 900),
+            _base("jacket", 0.01, 0.04, 1000, 200, jacket=dict(air_gap=1e-5, lambda_air=0.025)),
+            _base("shelf", 0.02, 0.06, 2000, 600, dim="spatial_1D"),
+        ]
+    tries = 0
+    while n_rand > 0 and tries < 200:
+        tries += 1
+        cfg = rng.choice(["shelf", "VISF", "jacket"])
+        H = rng.choice([0.008, 0.01, 0.012, 0.015])
+        D = H * rng.choice([2, 2.5, 3, 4])
+        K = rng.choice([500, 800, 1000, 1500, 2000])
+        stop = rng.choice([-80, -70, -60])
+        rate = rng.choice([0.5, 1, 2])
+        start = rng.choice([5, 10, 2])
+        # freezing time estimate: conduction through ice + shelf resistance
+        dT = -stop - 5
+        tf = 1000 * 333550 * 0.95 * (H ** 2 / (2 * 2.25 * dT) + H / (K * dT))
+        tcool = (start + 15) / rate
+        c = _base(cfg, H, D, K, round(1.5 * (tf + tcool)), start=start, stop=stop, rate=rate)
+        if cfg == "jacket":
+            c["jacket"] = dict(air_gap=rng.choice([1e-5, 1e-4, 1e-3]), lambda_air=0.025)
+        if cfg == "VISF":
+            a = rng.choice([5, 20, 40])
+            c["visf"] = dict(t_vac_start=a / 3600, t_vac_duration=rng.choice([30, 100]) / 3600,
+                             p_vac=rng.choice([50, 100, 200]), kappa=rng.choice([0.005, 0.01, 0.02]))
+        if rng.random() < 0.3:
+            c["holds"] = [[rng.choice([-5, -10]), rng.choice([5, 10])]]
+            c["t_tot"] += c["holds"][0][1]
+        c["seed"] = rng.choice([0, 1, 2, 3])
+        if _est_steps(c) > 9000:
+            continue
+        cs.append(c)
+        n_rand -= 1
+    return cs
